@@ -29,7 +29,7 @@
 //!
 //! usage: c04 gen <quick|thorough>
 //!        c04 one <mode> <hex(src)> <spans>
-use minijinja::machinery::{ast, parse_expr, CodeGenerator, Instruction};
+use minijinja::machinery::{ast, get_compiled_template, parse_expr, CodeGenerator, Instruction};
 use minijinja::value::{Kwargs, Rest, Value, ValueKind};
 use minijinja::{Environment, Error, UndefinedBehavior};
 use mjh::*;
@@ -313,6 +313,11 @@ fn mk_env(mode: &str) -> Environment<'static> {
     env.add_template("inc_a.txt", "[a:{{ v0 is defined }}]").unwrap();
     env.add_template("inc_b.txt", "[b]").unwrap();
     env.add_template("base.txt", "<{% block b %}base{% endblock %}|{% block c %}c{% endblock %}>").unwrap();
+    env.add_template("use_child.txt", "{% extends \"t.txt\" %}{% block b %}CHILD-B{% endblock %}{% block c %}CHILD-C({{ super() }}){% endblock %}").unwrap();
+    env.add_template("use_grandchild.txt", "{% extends \"use_child.txt\" %}{% block title %}GC-T{% endblock %}{% block b %}GC-B({{ super() }}){% endblock %}").unwrap();
+    env.add_template("use_import.txt", "{% import \"t.txt\" as t %}[{{ t.g }}|{{ t.m is defined }}|{% if t.m is defined %}{{ t.m() }}{% endif %}]").unwrap();
+    env.add_template("use_from.txt", "{% from \"t.txt\" import g %}<{{ g }}>").unwrap();
+    env.add_template("use_include.txt", "({% include \"t.txt\" %})").unwrap();
     env.add_template("mac.txt", "{% macro f(x, y=7) %}f({{ x }},{{ y }}){% endmacro %}{% set g = 3 %}").unwrap();
     env
 }
@@ -439,8 +444,46 @@ fn leaf_value(env: &Environment, lit: &str) -> Option<Value> {
     guarded(|| env.compile_expression(&src).and_then(|e| e.eval(Value::from(ctx)))).ok().and_then(|r| r.ok())
 }
 
+const BLOCK_NAMES: [&str; 3] = ["b", "c", "title"];
+const CONSUMERS: [&str; 5] = ["use_child.txt", "use_import.txt", "use_from.txt", "use_include.txt", "use_grandchild.txt"];
+
+/// Everything observable about a template variant, registered as `t.txt`: its own rendering, the
+/// block table (names the compiled template reports, `render_block` of every candidate name), the
+/// exported names, and the renderings of the consumers that extend / import / include it.
+fn tmpl_outcome(env: &mut Environment<'static>, src: &str, ctx: &Value) -> (String, String) {
+    if let Err(e) = env.add_template_owned("t.txt", src.to_string()) {
+        return (format!("err:{}", error_kind_name(&e)), format!("loaderr:{}", error_kind_name(&e)));
+    }
+    let res = |r: Result<String, Error>| match r {
+        Ok(s) => format!("ok:{}", hex(s.as_bytes())),
+        Err(e) => format!("err:{}", error_kind_name(&e)),
+    };
+    let mut parts = vec![];
+    {
+        let t = env.get_template("t.txt").unwrap();
+        parts.push(res(t.render(ctx.clone())));
+        let blocks: Vec<&str> = get_compiled_template(&t).blocks.keys().copied().collect();
+        parts.push(format!("blocks={}", blocks.join(",")));
+        for name in BLOCK_NAMES {
+            let r = t.eval_to_state(ctx.clone()).and_then(|mut st| st.render_block(name));
+            parts.push(format!("rb.{}={}", name, res(r)));
+        }
+        let ex = t.eval_to_state(ctx.clone()).map(|st| {
+            let mut e: Vec<String> = st.exports().into_iter().filter(|n| !n.starts_with('v')).map(|n| n.to_string()).collect();
+            e.sort();
+            e.join(",")
+        });
+        parts.push(format!("exports={}", res(ex)));
+    }
+    for c in CONSUMERS {
+        let r = env.get_template(c).and_then(|t| t.render(ctx.clone()));
+        parts.push(format!("{}={}", c, res(r)));
+    }
+    ("ok".to_string(), parts.join("|"))
+}
+
 fn run_case(c: &Case, rng: &mut Rng) -> String {
-    let env = mk_env(&c.mode);
+    let mut env = mk_env(&c.mode);
     let k = c.spans.len();
     // the values of the literal leaves, as the real front end builds them
     let mut ctx = BTreeMap::new();
@@ -462,13 +505,17 @@ fn run_case(c: &Case, rng: &mut Rng) -> String {
     let mut diffs = vec![];
     for m in &ms {
         let src = if c.tmpl { c.variant(*m) } else { format!("{{{{ {} }}}}", c.variant(*m)) };
-        let r = guarded(|| {
-            let t = match env.template_from_str(&src) {
-                Ok(t) => t,
-                Err(e) => return (format!("err:{}", error_kind_name(&e)), format!("loaderr:{}", error_kind_name(&e))),
-            };
-            ("ok".to_string(), outcome(Ok(t.render(ctx.clone())), |s| format!("ok:{}", hex(s.as_bytes()))))
-        });
+        let r = if c.tmpl {
+            guarded(|| tmpl_outcome(&mut env, &src, &ctx))
+        } else {
+            guarded(|| {
+                let t = match env.template_from_str(&src) {
+                    Ok(t) => t,
+                    Err(e) => return (format!("err:{}", error_kind_name(&e)), format!("loaderr:{}", error_kind_name(&e))),
+                };
+                ("ok".to_string(), outcome(Ok(t.render(ctx.clone())), |s| format!("ok:{}", hex(s.as_bytes()))))
+            })
+        };
         let (l, o) = match r {
             Ok(x) => x,
             Err(_) => ("panic".into(), "panic".into()),
